@@ -2,3 +2,6 @@
 FUNCS = ["Job.dependencychanged", "Dependency.check", "JobDependency.status", "Scheduler.aio_submit"]
 LEVEL = "proof"
 TRUSTED = []
+
+from bounded.wire import run_c04_c07
+BOUNDED = [("failure containment on real small DAGs", run_c04_c07)]
